@@ -514,7 +514,19 @@ class Driver:
         except Exception as exc:  # pylint: disable=broad-except
             raised = type(exc).__name__
         lst = nids if isinstance(nids, list) else [nids]
-        return self._emit_event({"a": "UpdateFw", "nids": lst, "f": [ftype, fver], "img": image_path is not None}, raised)
+        bad = (image_path is not None and not str(image_path).endswith("fw.hex")) or not isinstance(ftype, int) or not isinstance(fver, int)
+        f = [ftype if isinstance(ftype, int) else -1, fver if isinstance(fver, int) else -1]
+        return self._emit_event({"a": "UpdateFw", "nids": lst, "f": f, "img": image_path is not None, "bad": bad}, raised)
+
+    def send(self, text):
+        """Gateway.send: the public way to hand a ready-made command to the transport."""
+        raised = None
+        self.ops.append(["send", text])
+        try:
+            self.gw.send(text)
+        except Exception as exc:  # pylint: disable=broad-except
+            raised = type(exc).__name__
+        return self._emit_event({"a": "Send"}, raised)
 
     def set_metric(self, b):
         self.ops.append(["set_metric", bool(b)])
@@ -656,6 +668,8 @@ def replay_ops(cfg, ops, persistence_file=None):
         k = op[0]
         if k == "link":
             drv.link(op[1])
+        elif k == "send":
+            drv.send(op[1])
         elif k == "recv":
             drv.recv(op[1], now=op[2])
         elif k == "pump":
